@@ -211,11 +211,15 @@ def make_tree(rng: random.Random) -> Dict[str, Any]:
         files["pkg/sub/deep.py"] = catalogue_module(rng)[0]
     if rng.random() < 0.15:
         files["pkg/__init__.py"] = mutate("'''pkg'''\nfrom .good import *\nfrom . import c0\n__all__ = ['ok', 'nosuch']\n", rng)
-    prepend = rng.random() < 0.12
+    # now and then the root is called like a summary page ("index": used to end in a self-referencing symlink)
+    root = "pkg" if rng.random() < 0.93 else rng.choice(["index", "index", "classIndex", "nameIndex"])
+    if root != "pkg":
+        files = {root + k[3:]: v for k, v in files.items()}
+    prepend = root == "pkg" and rng.random() < 0.12
     if prepend:
         files["pkg/pp.py"] = "from fake.pack import pkg\nfrom fake.pack.pkg import good as g2\nimport fake\nfrom fake import pack as pk\n"
     return {"files": files, "kind": kind, "docformat": rng.choice(DOCFORMATS), "constructs": nconstructs,
-            "werror": rng.random() < 0.3, "prepend": prepend}
+            "werror": rng.random() < 0.3, "prepend": prepend, "root": root}
 
 
 class _Timeout(Exception):
@@ -253,7 +257,7 @@ def run_tree(tree: Dict[str, Any]) -> Dict[str, Any]:
         res["bad"] = bad
         out = Path(tmp, "out")
         args = ["--html-output", str(out), "--docformat", tree["docformat"], "--project-name", "p", "--quiet",
-                "--make-html", "--make-intersphinx", str(Path(tmp, "src", "pkg"))]
+                "--make-html", "--make-intersphinx", str(Path(tmp, "src", tree.get("root", "pkg")))]
         if tree.get("werror"):
             args.insert(0, "-W")
         if tree.get("prepend"):
@@ -285,8 +289,9 @@ def run_tree(tree: Dict[str, Any]) -> Dict[str, Any]:
         res["mentions"] = {rel: (Path(rel).name in text or rel in text) for rel in bad}
         pre = "fake.pack." if tree.get("prepend") else ""
         res["written"] = {n: (out / n).exists() for n in ("index.html", "objects.inv", "all-documents.html", "searchindex.json", "pkg.html")}
-        res["good_page"] = (out / (pre + "pkg.good.html")).exists() if "pkg/good.py" in tree["files"] and "pkg/good.py" not in bad else None
-        res["pkg_ok"] = "pkg/__init__.py" not in bad
+        rt = tree.get("root", "pkg")
+        res["good_page"] = (out / (pre + rt + ".good.html")).exists() if rt + "/good.py" in tree["files"] and rt + "/good.py" not in bad else None
+        res["pkg_ok"] = rt + "/__init__.py" not in bad
         res["tail"] = text[-400:]
     except BaseException as e:     # harness trouble
         res["outcome"] = "harness:%s:%s" % (type(e).__name__, e)
@@ -306,7 +311,8 @@ def where(e: BaseException) -> str:
 
 def judge(ctx: Ctx, tree: Dict[str, Any], r: Dict[str, Any]) -> None:
     o = r["outcome"]
-    inp = {"files": tree["files"], "docformat": tree["docformat"], "werror": tree.get("werror"), "prepend": tree.get("prepend")}
+    inp = {"files": tree["files"], "docformat": tree["docformat"], "werror": tree.get("werror"), "prepend": tree.get("prepend"),
+           "root": tree.get("root", "pkg")}
     if o is None or o.startswith("harness"):
         ctx.count("harness-trouble")
         ctx.notes.append("harness: " + str(o)[:200]) if len(ctx.notes) < 3 else None
@@ -337,10 +343,10 @@ def run(ctx: Ctx) -> None:
     # separate stream: lone surrogates in string literals (outside every Lean model)
     for i in range(8 if ctx.quick else 60):
         t = make_tree(ctx.rng)
-        t["files"]["pkg/sur.py"] = ctx.rng.choice([
+        t["files"][t["root"] + "/sur.py"] = ctx.rng.choice([
             "def f():\n    '''lone \\udc80 surrogate'''\n", "V = '\\ud800'\n'''doc'''\n",
             "class C:\n    '''x\n\n    @ivar a: \\udfff\n    '''\n", "def g(a='\\udc00'): pass\n"])
-        t["surrogate_form"] = t["files"]["pkg/sur.py"][:12]
+        t["surrogate_form"] = t["files"][t["root"] + "/sur.py"][:12]
         t["kind"] = "surrogate"
         trees.append(t)
     with mp.get_context("fork").Pool(min(16, os.cpu_count() or 4)) as pool:
@@ -374,7 +380,7 @@ def replay(ctx: Ctx, obj) -> int:
         print(obj)
         return 0
     r = run_tree({"files": inp["files"], "docformat": inp.get("docformat", "epytext"), "werror": inp.get("werror"),
-                  "prepend": inp.get("prepend"), "kind": "replay", "constructs": 0})
+                  "prepend": inp.get("prepend"), "root": inp.get("root", "pkg"), "kind": "replay", "constructs": 0})
     print("outcome:", r["outcome"], r.get("detail", ""))
     print(r.get("tail", "")[-600:])
     return 0 if str(r["outcome"]).startswith("exit") else 1
